@@ -49,6 +49,9 @@ func mergeProfile(r *rand.Rand) (gen.Profile, gen.DataCfg) {
 	if r.Intn(2) == 0 {
 		p.PartialImpl = 0.6
 	}
+	if r.Intn(3) == 0 {
+		p.ValueWithID = 0.6
+	}
 	return p, gen.DataCfg{Seed: 1, ListMax: 2, Pool: 3}
 }
 
